@@ -3,7 +3,7 @@ Model of the drift compensation of the approximating Markov chain (property C04)
 
 Anchors
   rpylib/process/markovchain/markovchain.py:27-41     vol_adjustment (small jumps -> Brownian motion, infinite variation only)
-  rpylib/process/markovchain/markovchain.py:44-67     compute_mu_h (its own running cell boundary)
+  rpylib/process/markovchain/markovchain.py:44-67     compute_mu_h (its own running cell boundary; neighbours from the walked axis)
   rpylib/process/markovchain/markovchain.py:96-119    constructor: truncate, then convert to the tilde representation,
                                                       equivalent_diffusion_coefficient = sqrt(sigma^2 + vol_adj^2)
   rpylib/process/markovchain/markovchain.py:137-160   initialisation: _process_drift = drift() + a + mu_tilde - mu_h
@@ -24,8 +24,11 @@ open Rpylib.Grid Rpylib.Cells
 /-! ### `compute_mu_h` -/
 
 /-- one turn of the loop `for position, xi in enumerate(axis)`; state = (mid_point_left, mu_h).
-    `grid.left_point(k)` / `grid.right_point(k)` with an `int` argument read `grid.axes[0]` (`ax0`), whatever axis is being
-    walked (`axis`): the two differ only for a copula grid whose axes differ. -/
+    `ax0` is the axis the neighbours of a state are read from, `axis` the axis being walked.  Since /repo d8e9df9
+    (`axis[min(last, position + 1)]`, `middle(axis[origin], axis[origin + 1])`, markovchain.py:56-65) the code is the instance
+    `ax0 = axis` for the 1-d chain and for every margin of a copula chain; before it, `grid.left_point(k)` /
+    `grid.right_point(k)` with an `int` argument read `grid.axes[0]`, i.e. `ax0 = axes[0]` whatever axis was walked (the
+    two differ only for a copula grid whose axes differ: negation witness `muH_first_axis_neighbours_differ`). -/
 def muHStep (mid : Rat → Rat → Rat) (ax0 axis : List Rat) (o : Nat) (m : Rat → Rat → Rat) (st : Rat × Rat) (p : Nat) :
     Rat × Rat :=
   if p ≠ o then
